@@ -625,7 +625,10 @@ class RecordingCriterion:
             max_metrics={k: float(v) for k, v in stats.max_metrics.items()},
             criterion=c, extra=e,
             truth=dict(evaluations=self.backend.truth["evaluations"], min_m=self.backend.truth["min_m"],
-                       max_m=self.backend.truth["max_m"], cost=float(sum(self.backend.truth["cost_by_trial"].values())))))
+                       max_m=self.backend.truth["max_m"], cost=float(sum(self.backend.truth["cost_by_trial"].values())),
+                       # the harness's own clock: run() is entered at fake time 0.0 (see run_tuner), so the wall-clock
+                       # time spent in run() is the scripted clock value itself
+                       wallclock=float(self.fake_time.now))))
         self.log(("stop_cond", crit, crit or status.num_trials_failed > self.max_failures))
         return crit
 
@@ -675,12 +678,16 @@ def run_tuner(params, script, scheduler_factory=None, hard_limit=400):
                 mock.patch.object(tuning_status_module, "time", fake_time), \
                 contextlib.redirect_stdout(sink):
             os.environ["SYNETUNE_FOLDER"] = tmp
+            # the Tuner is CONSTRUCTED ``construct_gap`` seconds (fake clock) before run() is entered at time 0.0:
+            # max_wallclock_time is a budget for run(), the time before it must not be charged
+            fake_time.now = -float(params.get("construct_gap", 0.0))
             tuner = Tuner(trial_backend=backend, scheduler=scheduler, stop_criterion=criterion,
                           n_workers=params["n_workers"], sleep_time=0, max_failures=params["max_failures"],
                           tuner_name="verif-run", asynchronous_scheduling=params["async"],
                           wait_trial_completion_when_stopping=params["wait"], callbacks=[recorder],
                           suffix_tuner_name=False, save_tuner=False,
                           start_jobs_without_delay=params.get("sjwd", True))
+            fake_time.now = 0.0
             try:
                 tuner.run()
             except HarnessAbort:
